@@ -197,3 +197,60 @@ def block_at_elevation_contains_the_elevation(n: int, h0: float, h1: float, h2: 
             if k > 0:
                 assert z > blocks[k - 1].p.ztop, "and it is the lowest such block: the exact top belongs to the block below"
     assert found == 1
+
+
+# ----------------------------------------------------------------------------- snapping an assembly to another block mesh
+Component = repo("armi.reactor.components.component:Component")
+Material = repo("armi.materials.material:Material")
+Fluid = repo("armi.materials.material:Fluid")
+
+
+def compo(solid, nd):
+    p = new(PMap, numberDensities={"U235": nd, "ZR": 2.0 * nd}, detailedNDens=None, pinNDens=None, volume=1.0, type="pin", flags=None)
+    return new(Component, p=p, material=new(Material) if solid else new(Fluid), parent=None, name="c", cached={})
+
+
+@lemma(gen=dict(HGEN, n=(2, 3), m0=(0.5, 80.0), d1=(0.5, 80.0), d2=(0.5, 80.0), a0=(0.0, 0.05), a1=(0.0, 0.05), a2=(0.0, 0.05)),
+       stubs={"armi.reactor.composites:ArmiObject.isFuel": "no_flags_is_not_fuel"}, timeout=120)
+def block_mesh_change_conserves_mass_when_asked(n: int, conserve: bool, h0: float, h1: float, h2: float, m0: float, d1: float, d2: float, a0: float, a1: float,
+                                                a2: float):
+    """Assembly.setBlockMesh(mesh, conserveMassFlag=True / False) with Block.setHeight and Component.changeNDensByFactor:
+    n = 2..3 blocks (enumerated) of a solid and a fluid component, any old heights, any strictly increasing new mesh
+    (tops m0, m0+d1, m0+d1+d2), block k snapping to mesh point k.  After: block k spans [mesh[k-1], mesh[k]] (contiguous
+    from 0, grid bounds = mesh); with conservation every component's density x height is unchanged (atoms per unit
+    area), without it every density is unchanged.  (A ONE-block assembly is not snapped at all: its topIndex 0 is read as
+    "excluded from the uniform mesh" - see contracts/pending/C11_assembly_finding.py.)  Stub: ArmiObject.isFuel (flags unset; only feeds the "auto" rule)."""
+    n = choose(n, 2, 3)
+    hs, dens = [h0, h1, h2], [a0, a1, a2]
+    mesh = [m0, m0 + d1, m0 + d1 + d2]
+    assume(h0 > 0 and h1 > 0 and h2 > 0 and m0 > 0 and d1 > 0 and d2 > 0 and a0 >= 0 and a1 >= 0 and a2 >= 0)
+    blocks, solids, fluids = [], [], []
+    for k in range(n):
+        solids.append(compo(True, dens[k]))
+        fluids.append(compo(False, 3.0 * dens[k]))
+        b = blk(hs[k], 0.0, 0.0, 0.0)
+        b._children = [solids[k], fluids[k]]
+        b.cached = {}
+        b.p.topIndex = k
+        blocks.append(b)
+    a = new(HexAssembly, _children=blocks, p=new(PMap, assemNum=7, type="A"), name="A", parent=None, spatialGrid=None, spatialLocator=None)
+    for b in blocks:
+        b.parent = a
+        for c in b._children:
+            c.parent = b
+    a.reestablishBlockOrder()
+    a.calculateZCoords()
+    a.setBlockMesh(mesh[:n], conserveMassFlag=conserve)
+    for k in range(n):
+        b = blocks[k]
+        below = mesh[k - 1] if k > 0 else 0.0
+        assert eq(b.p.zbottom, below) and eq(b.p.ztop, mesh[k]) and eq(b.p.height, mesh[k] - below), "block k spans [mesh[k-1], mesh[k]]"
+        assert eq(b.p.z, (below + mesh[k]) / 2.0)
+        assert eq(a.spatialGrid._bounds[2][k + 1], mesh[k])
+        for c, nd in ((solids[k], dens[k]), (fluids[k], 3.0 * dens[k])):
+            if conserve:
+                assert eq(c.p.numberDensities["U235"] * b.p.height, nd * hs[k]), "mass conserved: density x height unchanged"
+                assert eq(c.p.numberDensities["ZR"] * b.p.height, 2.0 * nd * hs[k])
+            else:
+                assert eq(c.p.numberDensities["U235"], nd) and eq(c.p.numberDensities["ZR"], 2.0 * nd), "no conservation asked: densities unchanged"
+    assert eq(a.getTotalHeight(), mesh[n - 1])
